@@ -226,6 +226,7 @@ func (g *Gen) genC13(n int) error {
 		if i%5 == 1 {
 			g.abandonBeforeMerge = true
 		}
+		g.sweepBeforeMerge = i%10 == 6
 		g.genMergeCase(func(c *batchCfg) {
 			c.syn = true
 			if c.maxDocs > 5 {
@@ -235,6 +236,7 @@ func (g *Gen) genC13(n int) error {
 			g.thesQueries(m, true)
 		}, depth)
 		g.abandonBeforeMerge = false
+		g.sweepBeforeMerge = false
 		g.st("case")
 	}
 	return nil
@@ -634,6 +636,10 @@ func (g *Gen) genC17(n int) error {
 			g.emit("mergefaults %s segs=%s,%s drops=%s|%s max=%d transienttail=%d", mf, o, s2, d1, d2, 60, 260)
 		} else {
 			g.emit("mergefaults %s segs=%s,%s drops=%s|%s max=%d", mf, o, s2, d1, d2, g.tierN(150, 600))
+		}
+		if i%4 == 2 {
+			// cancellations over the whole merge, and at its very end together with a fault in the last flush
+			g.emit("mergecancel %s segs=%s,%s drops=%s|%s max=30 faulttail=1", g.fresh("fx"), o, s2, d1, d2)
 		}
 		// a write fault and a cancellation in one merge: the file size is limited to about half of what
 		// the merge writes AND the channel closes inside the k-th report, early, in the middle, at the
